@@ -21,6 +21,7 @@ OPT = T.Opts(plus_commutes=True)
 
 
 def run(ctx):
+    integrity(ctx, ['crysp/bits.py', 'crysp/md.py', 'crysp/padding.py', 'crysp/sha.py', 'crysp/utils/operators.py'])
     # ---------------- R1 constants ------------------------------------------------------
     ctx.rule('C01-R1 constants')
 
